@@ -758,6 +758,17 @@ def copyto(dst, src, *args, **kwargs):
     # note that np.copyto is heavily used internally
     # in numpy, and it may be used with fundamental datatypes,
     # so we don't attempt to pass ndarray views to keep generality
+    if isinstance(src, (list, tuple)) and any(isinstance(_, unyt_array) for _ in src):
+        # a sequence of quantities carries units too
+        src = unyt_array(src)
+    where = kwargs.get("where", args[1] if len(args) > 1 else True)
+    if (
+        where is not True
+        and hasattr(src, "units")
+        and getattr(dst, "units", src.units) != src.units
+    ):
+        # a partial copy would leave old values of dst under the units of src
+        raise UnitInconsistencyError(dst.units, src.units)
     np.copyto._implementation(dst, src, *args, **kwargs)
     if getattr(dst, "units", None) is not None:
         dst.units = getattr(src, "units", dst.units)
